@@ -494,3 +494,38 @@ def r8(cx):
         getattr(m, f)(cx)
     cx.obligations = ob0 + len(cx.instances[ib:])
     cx.discharged = di0 + len([i for i in cx.instances[ib:] if i["verdict"] == "holds"])
+
+
+@rule("C02", "R9", "a mutation decides on the conditional read, never on the node's cached copy: load_catalog_cached is called only by read-only methods (get_* / list_* / has_* / load_*), "
+      "and the cache is read nowhere else - a delete / register / swap that consults the 60-second copy reports success (or skips its write) on the strength of a catalog version "
+      "other clients have already replaced")
+def r9(cx):
+    prog = cx.prog
+    LCC = S3 + "::load_catalog_cached"
+    n = 0
+    for k, c in prog.sites(lambda c: c == LCC):
+        p = named_parent(k)
+        if p == LCC:
+            continue
+        n += 1
+        name = p.rsplit("::", 1)[1]
+        if name.startswith(("get_", "list_", "has_", "load_")):
+            cx.passed(p, "cached-catalog-read-by-reader:%s" % name, [c["sp"]])
+        else:
+            cx.violation(p, "cached-catalog-read-by-mutation:%s" % name, "%s: %s reads the cached catalog copy: whatever it decides from it (skip the write, report success, choose what to change) is decided on "
+                         "a version another client may have replaced up to the cache's time-to-live ago" % (c["sp"], name), [c["sp"]])
+    cx.floor("callers of load_catalog_cached", n, 6)
+    # direct reads of the cache field
+    for k in prog.fn_keys(r"^(<)?metadata::s3::"):
+        b = cx.body(k)
+        if b is None:
+            continue
+        for bi, t in b.calls():
+            if t["callee"] == "tokio::sync::RwLock::<T>::read" and t["args"]:
+                o = M.operand_origins(b, t["args"][0], at=(bi, M.T))
+                if any(x[0] in ("upvar", "arg") and ".catalog_cache" in x[2] for x in o):
+                    p = named_parent(k)
+                    if p == LCC:
+                        cx.passed(p, "cache-field-read", [b.sp(bi)])
+                    else:
+                        cx.violation(p, "cache-field-read:%s" % p.rsplit("::", 1)[1], "%s: %s reads the catalog cache directly, outside load_catalog_cached" % (b.sp(bi), p.rsplit("::", 1)[1]), [b.sp(bi)])
